@@ -27,6 +27,10 @@ import (
 	"verifharness/tfs"
 )
 
+// passFS is a FileSystem written by a user of the package: it forwards every call of the
+// fs.FileSystem interface to another file system and exposes nothing else.
+type passFS struct{ fs.FileSystem }
+
 // ---------------------------------------------------------------- C14: returned slices belong to the caller
 func genC14(r *rng, tier string, res *Result) {
 	debug.SetPanicOnFault(true)
@@ -38,13 +42,19 @@ func genC14(r *rng, tier string, res *Result) {
 		var fsys fs.FileSystem
 		dir := filepath.Join(tmp, fmt.Sprintf("d%d", i))
 		fsname := ""
-		switch i % 3 {
+		switch i % 5 {
 		case 0:
 			fsys, fsname = fs.OSMMap, "osmmap"
 		case 1:
 			fsys, fsname = fs.OS, "os"
-		default:
+		case 2:
 			fsys, dir, fsname = fs.Mem, fmt.Sprintf("c14mem-%d-%d", res.Seed, i), "mem"
+		case 3:
+			// a caller's own FileSystem that forwards every call (metrics, logging, fault injection
+			// wrappers are written like this): nothing but the fs.FileSystem interface is visible
+			fsys, dir, fsname = passFS{fs.Mem}, fmt.Sprintf("c14wmem-%d-%d", res.Seed, i), "wrapped_mem"
+		default:
+			fsys, fsname = passFS{fs.OSMMap}, "wrapped_osmmap"
 		}
 		res.Tags["runs_on_"+fsname]++
 		func() {
@@ -137,10 +147,18 @@ func genC14(r *rng, tier string, res *Result) {
 				case x < 70:
 					v, err := db.Get(k)
 					if err == nil {
-						keep("Get("+interp.Hex(k)+")", v)
 						own(v)
+						if r.chance(50) {
+							// the slice is the caller's: it may write into it
+							for t := range v {
+								v[t] ^= 0x5a
+							}
+							prog = append(prog, "get "+interp.Hex(k)+" (slice kept, overwritten by the caller)")
+						} else {
+							prog = append(prog, "get "+interp.Hex(k)+" (slice kept)")
+						}
+						keep("Get("+interp.Hex(k)+")", v)
 					}
-					prog = append(prog, "get "+interp.Hex(k)+" (slice kept)")
 				case x < 80:
 					buf := make([]byte, 3, 3+r.intn(400))
 					copy(buf, "buf")
